@@ -476,7 +476,9 @@ class BusCookieAuthenticator :
         cookies = self._get_cookies()
 
         for i, tpl in enumerate(cookies):
-            if int(tpl[0]) == self.cookieId:
+            # ids are reused once older cookies have expired: only the
+            # line holding the cookie created here is ours to remove
+            if int(tpl[0]) == self.cookieId and tpl[2] == self.cookie:
                 del cookies[i]
                 break
 
